@@ -170,6 +170,30 @@ func (c *Ctx) optionFlow(a *parserAnchors, setter string) *types.Var {
 	}
 	// step: in function fn, exactly one store copies a prefix of src (read from a value of type fromType) somewhere;
 	// the destination path plus the uncopied rest of src is the new path
+	// wholeValue: v is the complete value of the named struct type (a by-value parameter, or the load of the local
+	// copy go/ssa makes of such a parameter)
+	wholeValue := func(v ssa.Value, pkg, typ string) bool {
+		if _, isPtr := v.Type().Underlying().(*types.Pointer); isPtr || !namedIs(v.Type(), pkg, typ) {
+			return false
+		}
+		switch x := v.(type) {
+		case *ssa.Parameter:
+			return true
+		case *ssa.UnOp:
+			if al, ok := x.X.(*ssa.Alloc); ok && x.Op == token.MUL {
+				// the local is filled by exactly one store, of the parameter
+				n, fromParam := 0, false
+				for _, r := range *al.Referrers() {
+					if st, ok := r.(*ssa.Store); ok && st.Addr == ssa.Value(al) {
+						n++
+						_, fromParam = st.Val.(*ssa.Parameter)
+					}
+				}
+				return n == 1 && fromParam
+			}
+		}
+		return false
+	}
 	step := func(fn *ssa.Function, src []*types.Var, fromPkg, fromType string) ([]*types.Var, ssa.Value, int) {
 		var dst []*types.Var
 		var dstRoot ssa.Value
@@ -178,8 +202,36 @@ func (c *Ctx) optionFlow(a *parserAnchors, setter string) *types.Var {
 			return nil, nil, 0
 		}
 		allInstrs(fn, func(_ *ssa.BasicBlock, _ int, in ssa.Instruction) {
+			// the whole struct handed to the constructor by value: `newWithOptions(l, pb.options)` — the parameter is the
+			// new root, the rest of the path stays
+			if call, ok := in.(*ssa.Call); ok {
+				cal := call.Call.StaticCallee()
+				if cal == nil || cal != a.ctor {
+					return
+				}
+				for i, av := range call.Call.Args {
+					root, path := loadedPath(av)
+					if root == nil || !namedIs(root.Type(), fromPkg, fromType) || !isPathPrefix(path, src) || len(path) == len(src) || i >= len(cal.Params) {
+						continue
+					}
+					cnt++
+					dst = append([]*types.Var(nil), src[len(path):]...)
+					dstRoot = cal.Params[i]
+				}
+				return
+			}
 			st, ok := in.(*ssa.Store)
 			if !ok {
+				return
+			}
+			if wholeValue(st.Val, fromPkg, fromType) {
+				// the whole options value stored into a field: the path continues below that field
+				droot, dpath := fieldPath(st.Addr)
+				if len(dpath) > 0 {
+					cnt++
+					dst = append(append([]*types.Var(nil), dpath...), src...)
+					dstRoot = droot
+				}
 				return
 			}
 			root, path := loadedPath(st.Val)
@@ -338,66 +390,67 @@ type pathFact struct {
 
 // enumPaths enumerates acyclic paths from block start to every Return (or block satisfying stop), calling visit with
 // the facts collected along the path and the instructions seen. It bounds the number of paths.
+//
+// The enumeration is sensitive to values carried through phis: a branch on a bool variable assigned on the way
+// (`terminated := …; if terminated …`, a short-circuit join) is resolved along the path to the value it has there —
+// a constant selects the branch, a condition value contributes its facts; a value already branched on earlier on the
+// path is not split again, and an alternative whose configuration-flag fact contradicts an earlier one is dropped
+// (those flags are written by the constructor only: R13.3).
 func (a *parserAnchors) enumPaths(start *ssa.BasicBlock, visit func(facts []pathFact, blocks []*ssa.BasicBlock, last *ssa.BasicBlock)) bool {
-	count := 0
-	const limit = 20000
-	var rec func(b *ssa.BasicBlock, facts []pathFact, blocks []*ssa.BasicBlock, on map[*ssa.BasicBlock]bool) bool
-	rec = func(b *ssa.BasicBlock, facts []pathFact, blocks []*ssa.BasicBlock, on map[*ssa.BasicBlock]bool) bool {
-		if on[b] {
-			return true // back edge: the loop iteration ends here
-		}
-		on[b] = true
-		defer delete(on, b)
-		blocks = append(blocks, b)
-		if len(b.Succs) == 0 {
-			count++
-			if count > limit {
-				return false
-			}
-			visit(facts, blocks, b)
-			return true
-		}
-		for i, s := range b.Succs {
-			if iff := blockIf(b); iff != nil {
-				// conditions that are calls of pure predicates of the package, or membership tests in a package-level
-				// token list, are expanded into the alternatives under which they hold
-				if alts := a.expandCond(iff.Cond, i == 0, b, 0); alts != nil {
-					for _, alt := range alts {
-						f2 := append(append([]pathFact(nil), facts...), alt...)
-						if !rec(s, f2, blocks, on) {
-							return false
-						}
-					}
-					continue
-				}
-			}
-			f2 := facts
-			if at, ok := a.edgeAtom(b, i); ok {
-				f2 = append(append([]pathFact(nil), facts...), pathFact{at, b})
-			}
-			if !rec(s, f2, blocks, on) {
-				return false
-			}
-		}
-		return true
-	}
-	return rec(start, nil, nil, map[*ssa.BasicBlock]bool{})
+	return a.enumCore(start, false, func(facts []pathFact, blocks []*ssa.BasicBlock, last *ssa.BasicBlock, back bool) {
+		visit(facts, blocks, last)
+	})
 }
 
 // enumPathsAll is enumPaths that also reports the paths that end at a back edge (back == true): one loop iteration
 // that goes round again.
 func (a *parserAnchors) enumPathsAll(start *ssa.BasicBlock, visit func(facts []pathFact, blocks []*ssa.BasicBlock, last *ssa.BasicBlock, back bool)) bool {
+	return a.enumCore(start, true, visit)
+}
+
+// flagContradiction: the new facts say the opposite of an earlier fact about the same configuration flag.
+func (a *parserAnchors) flagContradiction(facts, more []pathFact) bool {
+	for _, n := range more {
+		if n.at.kind != atFlag || n.at.fld == nil {
+			continue
+		}
+		for _, o := range facts {
+			if o.at.kind == atFlag && o.at.fld == n.at.fld && o.at.neg != n.at.neg {
+				return true
+			}
+		}
+	}
+	return false
+}
+
+func stripNot(v ssa.Value, want bool) (ssa.Value, bool) {
+	for {
+		if u, ok := v.(*ssa.UnOp); ok && u.Op == token.NOT {
+			v, want = u.X, !want
+			continue
+		}
+		return v, want
+	}
+}
+
+func (a *parserAnchors) enumCore(start *ssa.BasicBlock, all bool, visit func(facts []pathFact, blocks []*ssa.BasicBlock, last *ssa.BasicBlock, back bool)) bool {
 	count := 0
 	const limit = 20000
-	var rec func(b *ssa.BasicBlock, facts []pathFact, blocks []*ssa.BasicBlock, on map[*ssa.BasicBlock]bool) bool
-	rec = func(b *ssa.BasicBlock, facts []pathFact, blocks []*ssa.BasicBlock, on map[*ssa.BasicBlock]bool) bool {
+	type decision struct {
+		v   ssa.Value
+		out bool
+	}
+	var rec func(b *ssa.BasicBlock, facts []pathFact, blocks []*ssa.BasicBlock, on map[*ssa.BasicBlock]bool, decided []decision) bool
+	rec = func(b *ssa.BasicBlock, facts []pathFact, blocks []*ssa.BasicBlock, on map[*ssa.BasicBlock]bool, decided []decision) bool {
 		if on[b] {
-			count++
-			if count > limit {
-				return false
+			if all {
+				count++
+				if count > limit {
+					return false
+				}
+				visit(facts, blocks, b, true)
 			}
-			visit(facts, blocks, b, true)
-			return true
+			return true // back edge: the loop iteration ends here
 		}
 		on[b] = true
 		defer delete(on, b)
@@ -410,29 +463,156 @@ func (a *parserAnchors) enumPathsAll(start *ssa.BasicBlock, visit func(facts []p
 			visit(facts, blocks, b, false)
 			return true
 		}
-		for i, s := range b.Succs {
-			if iff := blockIf(b); iff != nil {
-				if alts := a.expandCond(iff.Cond, i == 0, b, 0); alts != nil {
-					for _, alt := range alts {
-						f2 := append(append([]pathFact(nil), facts...), alt...)
-						if !rec(s, f2, blocks, on) {
-							return false
-						}
-					}
-					continue
+		iff := blockIf(b)
+		if iff == nil {
+			for _, s := range b.Succs {
+				if !rec(s, facts, blocks, on, decided) {
+					return false
 				}
 			}
-			f2 := facts
-			if at, ok := a.edgeAtom(b, i); ok {
-				f2 = append(append([]pathFact(nil), facts...), pathFact{at, b})
+			return true
+		}
+		// the value branched on, as it is on this path
+		cond, flip := stripNot(iff.Cond, true)
+		resolved := cond
+		if _, isPhi := cond.(*ssa.Phi); isPhi {
+			resolved = phiOnPath(cond, blocks)
+			var f2 bool
+			resolved, f2 = stripNot(resolved, true)
+			if !f2 {
+				flip = !flip
 			}
-			if !rec(s, f2, blocks, on) {
+		}
+		for i, s := range b.Succs {
+			want := (i == 0) == flip // the outcome of `resolved` on this edge
+			if k, ok := resolved.(*ssa.Const); ok && k.Value != nil && k.Value.Kind() == constant.Bool {
+				if constant.BoolVal(k.Value) != want {
+					continue // not taken on this path
+				}
+				if !rec(s, facts, blocks, on, decided) {
+					return false
+				}
+				continue
+			}
+			known, prior := false, false
+			for _, d := range decided {
+				if d.v == resolved {
+					known, prior = true, d.out
+				}
+			}
+			if known {
+				if prior != want {
+					continue // the same value was found otherwise earlier on this path
+				}
+				if !rec(s, facts, blocks, on, decided) {
+					return false
+				}
+				continue
+			}
+			d2 := append(append([]decision(nil), decided...), decision{resolved, want})
+			from := b
+			if resolved != cond {
+				if in, ok := resolved.(ssa.Instruction); ok && in.Block() != nil {
+					from = in.Block() // the condition was evaluated there
+				}
+			}
+			// conditions that are calls of pure predicates of the package, or membership tests in a package-level
+			// token list, are expanded into the alternatives under which they hold
+			if alts := a.expandCond(resolved, want, from, 0); alts != nil {
+				for _, alt := range alts {
+					if a.flagContradiction(facts, alt) {
+						continue
+					}
+					f2 := append(append([]pathFact(nil), facts...), alt...)
+					if !rec(s, f2, blocks, on, d2) {
+						return false
+					}
+				}
+				continue
+			}
+			at := a.parseCond(resolved)
+			if !want {
+				at.neg = !at.neg
+			}
+			one := []pathFact{{at, from}}
+			if a.flagContradiction(facts, one) {
+				continue
+			}
+			f2 := append(append([]pathFact(nil), facts...), one...)
+			if !rec(s, f2, blocks, on, d2) {
 				return false
 			}
 		}
 		return true
 	}
-	return rec(start, nil, nil, map[*ssa.BasicBlock]bool{})
+	return rec(start, nil, nil, map[*ssa.BasicBlock]bool{}, nil)
+}
+
+// retAlt: one way a bool-returning path can end: the returned value and the facts that make it so.
+type retAlt struct {
+	val   bool
+	facts []pathFact
+}
+
+// returnAlternatives resolves the bool value a path returns: a constant as it is, a variable through the phis of
+// the path, and a condition value (a flag, a comparison, a pure predicate) split into the alternative in which it is
+// true and the one in which it is false, each with its facts added.
+func (a *parserAnchors) returnAlternatives(v ssa.Value, facts []pathFact, blocks []*ssa.BasicBlock, last *ssa.BasicBlock) []retAlt {
+	v = phiOnPath(v, blocks)
+	v, pos := stripNot(v, true)
+	if k, ok := v.(*ssa.Const); ok && k.Value != nil && k.Value.Kind() == constant.Bool {
+		return []retAlt{{constant.BoolVal(k.Value) == pos, facts}}
+	}
+	// a value the path has branched on already
+	var out []retAlt
+	for _, want := range []bool{true, false} {
+		from := last
+		if in, ok := v.(ssa.Instruction); ok && in.Block() != nil {
+			from = in.Block()
+		}
+		if alts := a.expandCond(v, want, from, 0); alts != nil {
+			for _, alt := range alts {
+				if a.flagContradiction(facts, alt) || a.factContradiction(facts, alt) {
+					continue
+				}
+				out = append(out, retAlt{want == pos, append(append([]pathFact(nil), facts...), alt...)})
+			}
+			continue
+		}
+		at := a.parseCond(v)
+		if !want {
+			at.neg = !at.neg
+		}
+		one := []pathFact{{at, from}}
+		if a.flagContradiction(facts, one) || a.factContradiction(facts, one) {
+			continue
+		}
+		out = append(out, retAlt{want == pos, append(append([]pathFact(nil), facts...), one...)})
+	}
+	return out
+}
+
+// factContradiction: the new facts repeat a condition of the path (same SSA condition: same comparison or call
+// instruction) with the opposite outcome.
+func (a *parserAnchors) factContradiction(facts, more []pathFact) bool {
+	for _, n := range more {
+		for _, o := range facts {
+			if n.at.kind != o.at.kind || n.at.neg == o.at.neg {
+				continue
+			}
+			switch n.at.kind {
+			case atCmp:
+				if n.at.bin != nil && n.at.bin == o.at.bin {
+					return true
+				}
+			case atCall:
+				if n.at.call != nil && n.at.call == o.at.call {
+					return true
+				}
+			}
+		}
+	}
+	return false
 }
 
 // purePredicate: a function of package parser returning one bool that neither consumes tokens, records errors nor
@@ -564,7 +744,7 @@ func (a *parserAnchors) expandCond(cond ssa.Value, want bool, from *ssa.BasicBlo
 		return nil
 	}
 	// a predicate with a loop (a walk over a table) is folded per state: its paths say nothing the rules can use
-	if a.ctx != nil && loopHeader(cal) != nil {
+	if a.ctx != nil && (loopHeader(cal) != nil || len(call.Call.Args) > 1) {
 		if alts := a.foldPredicate(a.ctx, call, want, from); alts != nil {
 			return alts
 		}
